@@ -212,8 +212,8 @@ def gen_misc():
         a = "coilAddress" if T == "ReadCoilsResponse" else "inputAddress"
         block(f"(r {T}) {m}(startAddress uint16, {a} uint16) (res bool, err error)", [
             "safety[C11]", "modifies[C11,C13] nothing",
-            f"ensures[C11,C05] ({a} >= startAddress && int({a}) - int(startAddress) < 8*len(r.Data)) <==> err == nil",
-            f"ensures[C11,C05] err == nil ==> res == ((r.Data[(int({a})-int(startAddress))/8] >> uint((int({a})-int(startAddress))%8)) & 1 == 1)"])
+            f"ensures[C11] ({a} >= startAddress && int({a}) - int(startAddress) < 8*len(r.Data)) <==> err == nil",
+            f"ensures[C11] err == nil ==> res == ((r.Data[(int({a})-int(startAddress))/8] >> uint((int({a})-int(startAddress))%8)) & 1 == 1)"])
     for T in ("ReadHoldingRegistersResponse", "ReadInputRegistersResponse", "ReadWriteMultipleRegistersResponse"):
         block(f"(r {T}) AsRegisters(requestStartAddress uint16) (res *Registers, err error)", [
             "safety[C05]", "modifies[C13,C05] nothing",
